@@ -76,7 +76,7 @@ class Budget(Exception):
 
 class Symx:
     def __init__(self, facts, inline=(), pure=(), models=None, spec=None, max_paths=20000, max_depth=5,
-                 inline_all_local=False, no_inline=(), loop_symbolic=False):
+                 inline_all_local=False, no_inline=(), loop_symbolic=False, snapshot_refs=False):
         self.loop_symbolic = loop_symbolic
         self._loops = {}
         self.fx = facts
@@ -88,6 +88,8 @@ class Symx:
         self.max_depth = max_depth
         self.inline_all_local = inline_all_local
         self.no_inline = set(no_inline)
+        # record `&local` arguments of opaque calls by the local's current value (expression checks)
+        self.snapshot_refs = snapshot_refs
         self.uid = 0
         self.npaths = 0
         self._frame = 0
@@ -150,6 +152,15 @@ class Symx:
                     root, path = v[1], v[2]
                 else:
                     root, path = ('deref', v), ()
+            elif p.startswith('[_') and p.endswith(']') and p[2:-1].isdigit():
+                # index by a local: use its value when it is a known constant
+                iv = st.env.get((frame, int(p[2:-1])))
+                if iv is None:
+                    iv = st.ov.get((('local', frame, int(p[2:-1])), ()))
+                if iv is not None and iv[0] == 'k':
+                    path = path + ('[%d]' % iv[1],)
+                else:
+                    path = path + (p,)
             else:
                 path = path + (p,)
         return root, path
@@ -176,6 +187,8 @@ class Symx:
         if root[0] == 'arg':
             return self._select(('sym', 'arg%d' % root[1]), path)
         if root[0] == 'deref':
+            if root[1][0] == 'valref':
+                return self._select(root[1][1], path)     # *&value
             return self._select(('sym', 'deref', root[1]), path)
         return self._select(('sym', str(root)), path)
 
@@ -602,9 +615,10 @@ class Symx:
             return [st]
 
         # models supplied by the rule
+        margs = self._shown(fn, st, t, args) if self.snapshot_refs else args
         for nm in [name] + names:
             if nm in self.models:
-                r = self.models[nm](self, args, t)
+                r = self.models[nm](self, margs, t)
                 if r is not None:
                     return done(r)
         # Default::default() of primitive integers / bool
@@ -711,14 +725,7 @@ class Symx:
         # not inlined: record an event; pure callees give a deterministic application.
         # References to plain locals holding a known aggregate/constant are recorded by value
         # (`&InstructionResult::SelfDestruct`), so that comparisons against constants stay readable.
-        shown = []
-        for a in args:
-            if a[0] == 'ref' and a[1][0] == 'local':
-                v = self._read(st, a[1], a[2])
-                if v[0] in ('k', 'agg') and (v[0] == 'k' or not v[4] or all(x[0] == 'k' for x in v[4])):
-                    shown.append(('valref', v))
-                    continue
-            shown.append(a)
+        shown = self._shown(fn, st, t, args)
         st.events.append((name, tuple(shown), fn.nq, b.i))
         if name in self.pure or any(n in self.pure for n in names):
             return done(('call', name, tuple(shown), None))
@@ -730,6 +737,26 @@ class Symx:
         self._havoc_mut_args(fn, st, t, args)
         self.uid += 1
         return done(('call', name, tuple(shown), self.uid))
+
+    def _shown(self, fn, st, t, args):
+        shown = []
+        for op, a in zip(t.args, args):
+            shared = False
+            if self.snapshot_refs and a[0] == 'ref' and op.place is not None and not op.place.pr:
+                shared = not (fn.local_ty(op.place.b) or '&mut').startswith('&mut')
+            if a[0] == 'ref' and a[1][0] == 'local':
+                v = self._read(st, a[1], a[2])
+                if v[0] in ('k', 'agg') and (v[0] == 'k' or not v[4] or all(x[0] == 'k' for x in v[4])):
+                    shown.append(('valref', v))
+                    continue
+                if shared and v[0] != 'ref' and not (v[0] == 'sym' and str(v[1]).startswith('uninit')):
+                    shown.append(('valref', v))
+                    continue
+            elif shared and a[1][0] in ('deref', 'arg'):
+                shown.append(('valref', self._read(st, a[1], a[2])))
+                continue
+            shown.append(a)
+        return shown
 
     def _havoc_mut_args(self, fn, st, t, args):
         for op, a in zip(t.args, args):
